@@ -8,7 +8,7 @@
    `None` stands for a Rust panic (slice length mismatch in `copy_from_slice`).
    No proofs here (Proofs/Rescue*.v).  Constant tables: Model/RescueConsts.v (generated from the source). *)
 From VBase Require Import MachInt.
-From VGen Require Import Mds12 Mds8.
+From VGen Require Import Mds12 Mds8 F64.
 From VModel Require Import RescueConsts.
 Open Scope Z_scope.
 
@@ -311,3 +311,33 @@ Definition mds8_freq_list_ok (st : list Z) : bool :=
   | [a0; a1; a2; a3; a4; a5; a6; a7] => mds8_mds_multiply_freq_ok (a0, a1, a2, a3, a4, a5, a6, a7)
   | _ => false
   end.
+
+(* ------------------------------------------------------------------------------------------------
+   RAW level: apply_permutation of Rp64_256 / RpJive64_256 on internal (Montgomery) words, written with the
+   rs2v-generated f64 operations (VGen.F64: f64_mul, f64_add, f64_exp7, f64_new) and mds_multiply above.
+   `square()` is the trait default `self * self`; `exp_acc` (rescue/mod.rs) squares M times then multiplies by the tail;
+   the round constants are `BaseElement::new(c)` of the table entries. *)
+Definition raw_sq (a : Z) : Z := f64_mul a a.
+Fixpoint raw_sqn (n : nat) (x : Z) : Z := match n with O => x | S k => raw_sqn k (raw_sq x) end.
+Definition raw_exp_acc (m : nat) (base tail : Z) : Z := f64_mul (raw_sqn m base) tail.
+Definition raw_inv_sbox64 (x : Z) : Z :=
+  let t1 := raw_sq x in
+  let t2 := raw_sq t1 in
+  let t3 := raw_exp_acc 3 t2 t2 in
+  let t4 := raw_exp_acc 6 t3 t3 in
+  let t5 := raw_exp_acc 12 t4 t4 in
+  let t6 := raw_exp_acc 6 t5 t3 in
+  let t7 := raw_exp_acc 31 t6 t6 in
+  let a := raw_sq (raw_sq (f64_mul (raw_sq t7) t6)) in
+  let b := f64_mul (f64_mul t1 t2) x in
+  f64_mul a b.
+Definition raw_add_constants (s k : list Z) : list Z := map (fun ak => f64_add (fst ak) (f64_new (snd ak))) (combine s k).
+Definition raw_round (mds : list Z -> list Z) (ark1 ark2 : list (list Z)) (s : list Z) (round : nat) : list Z :=
+  let s := map f64_exp7 s in
+  let s := mds s in
+  let s := raw_add_constants s (nth round ark1 []) in
+  let s := map raw_inv_sbox64 s in
+  let s := mds s in
+  raw_add_constants s (nth round ark2 []).
+Definition rp64_raw_permutation (s : list Z) : list Z := fold_left (raw_round mds12_multiply rp64_ARK1 rp64_ARK2) (seq 0 7) s.
+Definition jive_raw_permutation (s : list Z) : list Z := fold_left (raw_round mds8_multiply jive_ARK1 jive_ARK2) (seq 0 7) s.
